@@ -457,10 +457,11 @@ class SEvent:
 
     def set(self):
         self._s.point("set", self)
-        if not self._flag:
+        was = self._flag
+        if not was:
             self._s.changed()
         self._flag = True
-        self._s.executed("set", self.name)
+        self._s.executed("set", self.name, was)  # logged result: was the flag already set?
 
     def clear(self):
         self._s.point("clear", self)
